@@ -73,9 +73,15 @@ def run_monitor(sc, event_files, v, module="Mon_Prio"):
     if not r.finished or r.distinct == 0 or tool_errors or (r.crashed and not r.inv_violated) or (r.distinct < n_lines and not r.inv_violated):
         raise Inconclusive("monitor TLC failed (%d records, %d states, %s)\n%s" % (n_lines, r.distinct, tool_errors[:2], r.out[-3000:]))
     v.add_tlc(r, module + " (observation monitor over recorded real traces)")
+    # TLC reports only the first violated invariant of a state: take the property ids from the `viol` set of the reported state
     viol = {}
-    for inv, t0 in parse_violations(r.out, "t0"):
-        viol.setdefault(inv.replace("M_", ""), set()).add(t0)
+    for block in r.out.split("Error: Invariant ")[1:]:
+        m0 = re.findall(r"/\\ t0 = (\d+)", block)
+        mv = re.findall(r"/\\ viol = \{([^}]*)\}", block)
+        if not m0 or not mv:
+            continue
+        for pid_ in re.findall(r'"(\w+)"', mv[-1]):
+            viol.setdefault(pid_, set()).add(int(m0[-1]))
     events = read_ndjson(os.path.join(mon, "events.ndjson"))
     return viol, events
 
@@ -512,7 +518,9 @@ def v1_configs(kind, tier):
                 mk1("v1dynrate", [3, 2, 1], {3: 1, 2: 2}, 6, "rate", 4, 2, 6, graceful=True, adds=[[3, 1], [4, 2]], rmvs=[3, 1]),
                 mk1("v1dynunbuf", [3, 2, 1], {2: 1, 1: 2}, 4, "fair", 3, 1, 4, graceful=True, adds=[[3, 3]], rmvs=[1], unbuf=[2], outcap=1, fbcap=1),
                 # remove and re-add of the SAME priority (with items of it possibly in flight), and replacement of a drained channel
-                mk1("v1readd", [2, 1], {2: 1, 1: 2}, 4, "fair", 4, 2, 3, graceful=True, adds=[[3, 1], [4, 2]], rmvs=[1])]
+                mk1("v1readd", [2, 1], {2: 1, 1: 2}, 4, "fair", 4, 2, 3, graceful=True, adds=[[3, 1], [4, 2]], rmvs=[1]),
+                mk1("v1readdstall", [2, 1], {2: 1, 1: 2}, 4, "fair", 4, 2, 4, adds=[[3, 1]], rmvs=[1], extra=dict(stall=True)),
+                mk1("v1dynstall", [3, 2, 1], {3: 1, 2: 2}, 6, "rate", 4, 2, 5, adds=[[3, 1], [4, 2]], rmvs=[3], extra=dict(stall=True))]
     if kind == "grace":
         return [mk1("v1grace", [2, 1], {2: 1, 1: 2}, 3, "rate", 2, 2, 6, graceful=True),
                 mk1("v1gracefair", [3, 2, 1], {3: 1, 2: 2, 1: 3}, 4, "fair", 3, 1, 4, graceful=True, unbuf=[3], outcap=1)]
